@@ -214,12 +214,16 @@ type Discharger struct {
 	mu       sync.Mutex
 	Stats    map[string]int
 	TimeBy   map[string]float64
+	CrossCheck bool
+	Cross    map[string]int
+	crossMu  sync.Mutex
 }
 
 func NewDischarger(dir string, thorough bool) *Discharger {
 	d := &Discharger{Dir: dir, Quick: 4, Full: 12, Thorough: thorough, Stats: map[string]int{}, TimeBy: map[string]float64{}}
 	if thorough {
 		d.Quick, d.Full = 10, 60
+		d.CrossCheck = true
 	}
 	os.MkdirAll(dir, 0o755)
 	return d
@@ -287,6 +291,9 @@ func (d *Discharger) Discharge(reg *Registry, o *Obligation) *OblResult {
 	}
 	// stage 1: z3-new, short
 	if finish(runSolver(context.Background(), solvers[0], script, d.Dir, id, d.Quick)) {
+		if d.CrossCheck && r.Status == "proved" && !o.ExpectSat {
+			d.crossCheck(reg, o, script, id)
+		}
 		d.cache.Store(id, r)
 		return r
 	}
@@ -495,4 +502,37 @@ func declOfDefine(ln string) string {
 		}
 	}
 	return fmt.Sprintf("(declare-fun %s (%s) %s)", name, strings.Join(sorts, " "), ret)
+}
+
+// crossCheck (thorough tier): an obligation proved by z3 5.1 is also given to
+// z3 4.8.12 and cvc5 with a short budget. Agreement, no-answer and disagreement
+// are counted for the evidence; a disagreement is printed.
+func (d *Discharger) crossCheck(reg *Registry, o *Obligation, script, id string) {
+	for _, name := range []string{"z3", "cvc5"} {
+		var sv Solver
+		for _, s := range solvers {
+			if s.Name == name {
+				sv = s
+			}
+		}
+		sc := script
+		if sv.CVC5 {
+			sc = assembleScript(reg, o, true, false, false)
+		}
+		sr := runSolver(context.Background(), sv, sc, d.Dir, id+".x", 3)
+		d.crossMu.Lock()
+		if d.Cross == nil {
+			d.Cross = map[string]int{}
+		}
+		switch sr.Status {
+		case "unsat":
+			d.Cross[name+":agree"]++
+		case "sat":
+			d.Cross[name+":DISAGREE"]++
+			fmt.Printf("CROSS-CHECK: %s answers sat on %s, which z3-new proved\n", name, o.Name)
+		default:
+			d.Cross[name+":no-answer"]++
+		}
+		d.crossMu.Unlock()
+	}
 }
